@@ -330,6 +330,11 @@ pub fn gen_precase(cx: &mut Ctx, o: &PreOpts) -> PreCase {
     }
     preamble_records(cx, &mut recs, id, role, flags, &pairs, o.noise_num, eff, true);
     junk_reserved(cx, &mut recs);
+    // a record that does not fit 16 bits together with its padding: give it a buffer that can hold it whole
+    let bufsize = if o.force_buf.is_none() && recs.iter().any(|r| r.content.len() + usize::from(r.padding) > 65535) && cx.ch.chance(1, 2) {
+        cx.probe("buffer_holds_whole_huge_record");
+        cx.ch.one_of(&[70000usize, 131072, 1 << 20])
+    } else { bufsize };
     let mut wire = encode_all(&recs);
     let trailing = if cx.ch.chance(1, 3) { cx.ch.range(1, 40) } else { 0 };
     let t = gen_bytes(cx, trailing);
@@ -428,11 +433,11 @@ fn sample_of(cx: &mut Ctx, case: &PreCase, style: Style) {
 
 pub const NOISE_PROBES: &[&str] = &[
     "noise_getvalues", "noise_unknown_type", "noise_skipped", "noise_foreign_id", "noise_dup_begin", "noise_foreign_begin",
-    "noise_unknown_role", "noise_own_misplaced", "noise_getvalues_empty", "noise_huge_record", "getvalues_incomplete_tail",
+    "noise_unknown_role", "noise_own_misplaced", "noise_getvalues_empty", "noise_huge_record", "noise_huge_record_over_64k_total", "getvalues_incomplete_tail",
 ];
 pub const C01_PROBES: &[&str] = &[
     "exact_fill_read", "params_3plus_records", "long_form_small_len", "pair_spans_3_records", "four_byte_length",
-    "cut_inside_length_prefix", "tight_buffer", "pair_over_one_record",
+    "cut_inside_length_prefix", "tight_buffer", "pair_over_one_record", "buffer_holds_whole_huge_record",
 ];
 pub const C04REQ_PROBES: &[&str] = &["abort_during_params", "exact_fill_read", "params_3plus_records", "cut_inside_length_prefix"];
 pub const C06_PROBES: &[&str] = &["exact_fill_read", "pair_at_bound", "pair_beyond_buffer", "tight_limit_ok", "bufsize_table"];
